@@ -120,6 +120,20 @@ def spec_call(engine, st, name, node):
         a = engine.deref(st, engine.eval(st, node.args[0]))
         b = engine.deref(st, engine.eval(st, node.args[1]))
         return Ty.mk_bool(engine.keyterm(a) == engine.keyterm(b))
+    if name == "members":
+        # members(k): the set a frozenset-valued dict key k stands for (inverse of the injective key function)
+        from . import types as _T
+
+        SetS = z3.ArraySort(_T.IntS, _T.BoolS)
+        engine.keyterm(V(_T.Set(Key), [z3.K(_T.IntS, z3.BoolVal(False))]))  # makes sure `setkey` exists
+        sk = engine.specfns["setkey"][0]
+        if "keyset" not in engine.specfns:
+            ks = z3.Function("keyset", _T.IntS, SetS)
+            engine.specfns["keyset"] = (ks, [], Int, None)
+            A_ = z3.Const("ks!A", SetS)
+            engine.axioms.append(z3.ForAll([A_], ks(sk(A_)) == A_, patterns=[sk(A_)]))
+        k = engine.keyterm(engine.deref(st, engine.eval(st, node.args[0])))
+        return V(_T.Set(Key), [engine.specfns["keyset"][0](k)])
     if name == "at_entry":
         snap = getattr(st, "loop_entry", None)
         if snap is None:
